@@ -1540,6 +1540,378 @@ fn run_mvn(cfg: &Cfg, rep: &mut Report, spec: &MvnSpec, n: usize, seed: u64, rng
 }
 
 // ---------------------------------------------------------------------------------------------
+// multivariate normal at larger dimensions
+
+/// Covariances whose Cholesky factor the harness computes itself in plain f64 (all well conditioned:
+/// cond of the correlation part below ~1e4, per-coordinate scales 0.1..10).
+const HIGHDIM_KINDS: [&str; 4] = ["ar1", "equicorrelated", "diag+rank-one", "random-spd"];
+
+fn highdim_class(d: usize) -> &'static str {
+    if d <= 40 {
+        "mvn:highdim:d=7..40"
+    } else if d <= 128 {
+        "mvn:highdim:d=41..128"
+    } else if d <= 512 {
+        "mvn:highdim:d=129..512"
+    } else {
+        "mvn:highdim:d>512"
+    }
+}
+
+/// Position of d relative to the nearest multiple of 64 (the block sizes a blocked / unrolled /
+/// parallel product is likely to use all divide 64).
+fn highdim_edge(d: usize) -> &'static str {
+    match d % 64 {
+        0 => "mvn:highdim:d%64=0",
+        1 => "mvn:highdim:d%64=1",
+        63 => "mvn:highdim:d%64=63",
+        _ => "mvn:highdim:d%64=other",
+    }
+}
+
+/// Lower Cholesky factor (row-major) in plain f64; None when a pivot is not positive.
+fn chol_f64(a: &[f64], d: usize) -> Option<Vec<f64>> {
+    let mut l = vec![0.0f64; d * d];
+    for i in 0..d {
+        for j in 0..=i {
+            let mut s = a[i * d + j];
+            {
+                let (ri, rj) = (&l[i * d..i * d + j], &l[j * d..j * d + j]);
+                for k in 0..j {
+                    s -= ri[k] * rj[k];
+                }
+            }
+            if i == j {
+                if !(s > 0.0) || !s.is_finite() {
+                    return None;
+                }
+                l[i * d + i] = s.sqrt();
+            } else {
+                l[i * d + j] = s / l[j * d + j];
+            }
+        }
+    }
+    Some(l)
+}
+
+/// (mean, sigma row-major exactly symmetric, description of the generator's parameters)
+fn highdim_cov(rng: &mut Rng, d: usize, kind: usize) -> (Vec<f64>, Vec<f64>, Value) {
+    let sc: Vec<f64> = (0..d).map(|_| rng.log_range(0.1, 10.0)).collect();
+    let mean: Vec<f64> = (0..d).map(|_| rng.range(-1e3, 1e3)).collect();
+    let mut s = vec![0.0; d * d];
+    let desc;
+    let mut fill = |r: &dyn Fn(usize, usize) -> f64| {
+        for i in 0..d {
+            for j in 0..=i {
+                let v = (sc[i] * sc[j]) * r(i, j);
+                s[i * d + j] = v;
+                s[j * d + i] = v;
+            }
+        }
+    };
+    match kind {
+        0 => {
+            let rho = rng.range(0.3, 0.9) * if rng.bool() { 1.0 } else { -1.0 };
+            let pw: Vec<f64> = (0..d).map(|k| rho.powi(k as i32)).collect();
+            fill(&|i, j| pw[i - j]);
+            desc = json!({"correlation": "rho^|i-j|", "rho": rho});
+        }
+        1 => {
+            let rho = rng.range(0.1, 0.8);
+            fill(&|i, j| if i == j { 1.0 } else { rho });
+            desc = json!({"correlation": "equicorrelated", "rho": rho});
+        }
+        2 => {
+            let c = rng.range(0.2, 2.0);
+            let u: Vec<f64> = rng.normals(d);
+            fill(&|i, j| c * u[i] * u[j] + if i == j { 1.0 } else { 0.0 });
+            desc = json!({"covariance": "D (I + c u u') D", "c": c});
+        }
+        _ => {
+            let a: Vec<f64> = rng.normals(d * d);
+            fill(&|i, j| {
+                let mut v = if i == j { 0.05 } else { 0.0 };
+                for k in 0..d {
+                    v += a[i * d + k] * a[j * d + k] / d as f64;
+                }
+                v
+            });
+            desc = json!({"covariance": "D (A A'/d + 0.05 I) D"});
+        }
+    }
+    (mean, s, desc)
+}
+
+/// Multivariate normal at dimension 7..~1000 ("Multivariate normal draws have the requested mean
+/// and covariance: every whitened coordinate and every random projection is standard normal" has no
+/// bound on the dimension). The cost of a draw is d², so the number of draws is small (500..20000)
+/// and the DKW band for that n is used: an error in how the rows of the factor are walked (a block edge, a
+/// remainder loop, a misplaced or repeated coordinate) moves a coordinate by O(1) in KS distance.
+/// Checks: dimension, count and shape through `sample()` and `DistributionND::sample_n`, finiteness,
+/// every whitened coordinate, every coordinate standardised by the requested mean and variance,
+/// 32 random unit projections and adjacent-pair projections (z_i ± z_{i+1})/√2 — each a DKW test
+/// with α = 1e-12 fixed before the draws are looked at.
+#[cfg(not(miri))]
+fn run_mvn_highdim(cfg: &Cfg, rep: &mut Report, d: usize, kind: usize, n: usize, seed: u64, rng: &mut Rng) {
+    let regime = highdim_class(d);
+    rep.case(regime);
+    rep.seen(highdim_edge(d), 1);
+    rep.seen(&format!("mvn:highdim:cov={}", HIGHDIM_KINDS[kind]), 1);
+    let (mean, sigma, desc) = highdim_cov(rng, d, kind);
+    rep.distinct(Hasher::new().s("mvn-highdim").u(d as u64).u(kind as u64).fs(&mean).u(seed).finish(), true);
+    let ctx = || json!({"family": "mvn", "dim": d, "covariance_kind": HIGHDIM_KINDS[kind], "generator": desc, "mean_first": jf(&mean[..d.min(4)]), "sigma_first_row_first": jf(&sigma[..d.min(4)]), "alea_seed": seed, "n_requested": n, "replay": "covariance regenerated from case_seed"});
+    let l = match chol_f64(&sigma, d) {
+        Some(l) => l,
+        None => {
+            rep.inconclusive(format!("generator produced a covariance (d = {}, {}) the reference Cholesky rejects", d, HIGHDIM_KINDS[kind]));
+            return;
+        }
+    };
+    arm_budget(cfg);
+    let mvn = match guard(|| MVN::new(Vector::new(mean.clone()), Matrix::new(sigma.clone(), d as i32, d as i32))) {
+        Ok(m) => m,
+        Err(msg) => {
+            rep.check("C03.no_panic", regime, false, || {
+                let mut c = ctx();
+                c["call"] = json!("MVN::new");
+                c["panic"] = json!(msg);
+                c["expected"] = json!("a distribution object (symmetric positive definite covariance)");
+                c
+            });
+            vh::set_budget(u64::MAX);
+            return;
+        }
+    };
+    rep.check("C03.mvn.dim", regime, mvn.get_dim() == d, || {
+        let mut c = ctx();
+        c["get_dim"] = json!(mvn.get_dim());
+        c
+    });
+    alea::set_seed(seed);
+    let mut raw: Vec<f64> = Vec::with_capacity(n * d);
+    let mut local = SiteCounts::new();
+    // rows per guarded call: at most ~1e5 normal deviates, far below the per-site budget
+    let chunk = (100_000 / d).max(1);
+    let mut have = 0usize;
+    let mut k = 0usize;
+    let mut shape_bad: Option<Value> = None;
+    let mut aborted = false;
+    while have < n && !aborted {
+        let m = if k == 0 { 1 } else { chunk.min(n - have) };
+        let single = k % 2 == 1;
+        let state = alea::get_seed();
+        let r = guard(|| {
+            if single {
+                let mut out = Vec::with_capacity(m * d);
+                let mut lens_ok = true;
+                for _ in 0..m {
+                    let v: Vector = mvn.sample();
+                    lens_ok &= v.len() == d;
+                    out.extend_from_slice(&v.v);
+                }
+                (out, if lens_ok { m } else { usize::MAX }, d)
+            } else {
+                let mm: Matrix = DistributionND::sample_n(&mvn, m);
+                (mm.data.v, mm.nrows, mm.ncols)
+            }
+        });
+        absorb(&mut local);
+        match r {
+            Ok((v, nr, nc)) => {
+                if nr != m || nc != d || v.len() != m * d {
+                    shape_bad = Some(json!({"api": if single {"sample"} else {"sample_n"}, "requested": [m, d], "returned_shape": [if nr == usize::MAX { json!("a draw with len != d") } else { json!(nr) }, json!(nc)], "returned_len": v.len()}));
+                    aborted = true;
+                } else {
+                    raw.extend_from_slice(&v);
+                    have += m;
+                }
+            }
+            Err(msg) => {
+                // the budget is per draw: replay the chunk one draw at a time
+                let mut msg_final = msg.clone();
+                let mut budget = is_budget_panic(&msg);
+                if budget {
+                    alea::set_seed(state);
+                    budget = false;
+                    let mut all_ok = true;
+                    for _ in 0..m {
+                        vh::reset();
+                        let one = guard(|| mvn.sample());
+                        absorb(&mut local);
+                        match one {
+                            Ok(v) if v.len() == d => raw.extend_from_slice(&v.v),
+                            Ok(_) => {
+                                all_ok = false;
+                                msg_final = "draw with len != d".into();
+                                break;
+                            }
+                            Err(m1) => {
+                                all_ok = false;
+                                budget = is_budget_panic(&m1);
+                                msg_final = m1;
+                                break;
+                            }
+                        }
+                    }
+                    if all_ok {
+                        have += m;
+                        k += 1;
+                        continue;
+                    }
+                }
+                let id = if budget { "C03.terminates" } else { "C03.no_panic" };
+                rep.check(id, regime, false, || {
+                    let mut c = ctx();
+                    c["draws_before"] = json!(have);
+                    c["panic"] = json!(msg_final);
+                    c
+                });
+                aborted = true;
+            }
+        }
+        k += 1;
+    }
+    vh::set_budget(u64::MAX);
+    flush(rep, &local);
+    rep.note_add("draws.mvn_highdim", have as f64);
+    let bad = shape_bad.take();
+    rep.check("C03.bulk.mvn.shape", regime, bad.is_none(), || {
+        let mut c = ctx();
+        c["observed"] = bad.clone().unwrap_or(json!(null));
+        c
+    });
+    if aborted {
+        return;
+    }
+    rep.check("C03.no_panic", regime, true, || json!(null));
+    rep.check("C03.terminates", regime, true, || json!(null));
+    let nn = have;
+    let badpos = raw.iter().position(|x| !x.is_finite());
+    rep.check("C03.support", regime, badpos.is_none(), || {
+        let mut c = ctx();
+        let i = badpos.unwrap();
+        c["draw_index"] = json!(i / d);
+        c["coordinate"] = json!(i % d);
+        c["observed"] = jnum(raw[i]);
+        c
+    });
+    if badpos.is_some() {
+        return;
+    }
+    let eps = stats::dkw_eps(nn, ALPHA);
+    let std_cdf = |x: f64| sp::norm_cdf(x, 0.0, 1.0);
+    let mut buf: Vec<f64> = vec![0.0; nn];
+    let mut worst = 0.0f64;
+    // every coordinate standardised with the requested mean and variance
+    for j in 0..d {
+        let sd = sigma[j * d + j].sqrt();
+        for (t, row) in raw.chunks_exact(d).enumerate() {
+            buf[t] = (row[j] - mean[j]) / sd;
+        }
+        let (dist, at) = ks(&mut buf, &std_cdf, &std_cdf);
+        worst = worst.max(dist / eps);
+        rep.check("C03.mvn.marginal", regime, dist <= eps, || {
+            let mut c = ctx();
+            c["coordinate"] = json!(j);
+            c["requested_mean"] = json!(mean[j]);
+            c["requested_sd"] = json!(sd);
+            c["n"] = json!(nn);
+            c["D"] = jnum(dist);
+            c["eps"] = json!(eps);
+            c["argmax_x"] = jnum(at);
+            c["expected"] = json!("(x_j - mean_j)/sd_j is N(0,1)");
+            c
+        });
+    }
+    // whiten in place with the harness's own factor of the requested covariance
+    for row in raw.chunks_exact_mut(d) {
+        for i in 0..d {
+            let mut v = row[i] - mean[i];
+            let li = &l[i * d..i * d + i];
+            for j in 0..i {
+                v -= li[j] * row[j];
+            }
+            row[i] = v / l[i * d + i];
+        }
+    }
+    for j in 0..d {
+        for (t, row) in raw.chunks_exact(d).enumerate() {
+            buf[t] = row[j];
+        }
+        let (dist, at) = ks(&mut buf, &std_cdf, &std_cdf);
+        worst = worst.max(dist / eps);
+        rep.check("C03.mvn.coord", regime, dist <= eps, || {
+            let mut c = ctx();
+            c["whitened_coordinate"] = json!(j);
+            c["n"] = json!(nn);
+            c["D"] = jnum(dist);
+            c["eps"] = json!(eps);
+            c["argmax_x"] = jnum(at);
+            c["expected"] = json!("N(0,1) after whitening with chol(requested covariance)");
+            c
+        });
+    }
+    for p in 0..32 {
+        let mut u: Vec<f64> = rng.normals(d);
+        let nrm = u.iter().map(|x| x * x).sum::<f64>().sqrt();
+        for x in u.iter_mut() {
+            *x /= nrm;
+        }
+        for (t, row) in raw.chunks_exact(d).enumerate() {
+            let mut s = 0.0;
+            for i in 0..d {
+                s += u[i] * row[i];
+            }
+            buf[t] = s;
+        }
+        let (dist, at) = ks(&mut buf, &std_cdf, &std_cdf);
+        worst = worst.max(dist / eps);
+        rep.check("C03.mvn.proj", regime, dist <= eps, || {
+            let mut c = ctx();
+            c["projection_index"] = json!(p);
+            c["n"] = json!(nn);
+            c["D"] = jnum(dist);
+            c["eps"] = json!(eps);
+            c["argmax_x"] = jnum(at);
+            c
+        });
+    }
+    // adjacent pairs: all of them up to d = 64, else the first, the last and 62 random ones
+    let pairs: Vec<usize> = if d <= 64 {
+        (0..d - 1).collect()
+    } else {
+        let mut v = vec![0, d - 2];
+        for _ in 0..62 {
+            v.push(rng.usize(0, d - 2));
+        }
+        v
+    };
+    for &i in &pairs {
+        for sg in [1.0, -1.0] {
+            for (t, row) in raw.chunks_exact(d).enumerate() {
+                buf[t] = (row[i] + sg * row[i + 1]) * std::f64::consts::FRAC_1_SQRT_2;
+            }
+            let (dist, at) = ks(&mut buf, &std_cdf, &std_cdf);
+            worst = worst.max(dist / eps);
+            rep.check("C03.mvn.pairproj", regime, dist <= eps, || {
+                let mut c = ctx();
+                c["pair"] = json!([i, i + 1]);
+                c["sign"] = json!(sg);
+                c["space"] = json!("whitened");
+                c["n"] = json!(nn);
+                c["D"] = jnum(dist);
+                c["eps"] = json!(eps);
+                c["argmax_x"] = jnum(at);
+                c
+            });
+        }
+    }
+    rep.note_add("dkw_tests.mvn_highdim", (2 * d + 32 + 2 * pairs.len()) as f64);
+    rep.note_max(&format!("worst_ratio.dkw.{}", regime), worst);
+    rep.sample(|| json!({"law": "MVN", "regime": regime, "dim": d, "covariance_kind": HIGHDIM_KINDS[kind], "alea_seed": seed, "n": nn, "dkw_eps": eps, "worst_D_over_eps": worst}));
+}
+
+// ---------------------------------------------------------------------------------------------
 // fault injection on the RNG stream
 
 /// Raw words at positions 0..INJECT_DRAWS-1 after the seed are reached by INJECT_DRAWS draws of any
@@ -1952,11 +2324,11 @@ const SITES: &[(&str, u64, bool)] = &[
 ];
 
 pub fn run(cfg: &Cfg, rep: &mut Report) {
-    rep.rule = "fixed grid of parameter points covering every sampler branch named in the quantifier (gamma shape <1/3, =1/3, <1, >=1 and beta/chi2/t built on it; Poisson rate <10, 10..100, 125/149, >=150; binomial inversion/BTPE on both sides of n*min(p,1-p)=30 with and without the p<->1-p flip, p in {0,1}, n up to 1e5; equal-bounds uniform/discrete uniform; normal |mu|<=1e3, sigma=0; MVN d=1..4; badly scaled MVN covariances D*R*D with standard deviations 1e-8..1e2, variance ratio >= 1e6, |correlations| up to 0.94, d = 1..6: 8 fixed + 12 (24) random; structured MVN covariances with exact zeros placed by a graph - hub-first, hub-last, banded, block-diagonal, ring/tree/sparse graph under a random labelling, inverse of a chain/tree precision matrix, diagonal + rank one - d = 2..6, 7 fixed + 9 (21) random, n = 2e5 (1e6), each also through all pair projections) plus random parameter points inside the same regimes; each case = one law, one alea seed, n draws requested through sample/sample_n/sample_matrix in turn (quick 2e5, thorough 4e6; the grid is run with 2 (quick) / 3 (thorough) alea seeds per point plus 32 / 96 random points; quick adds 24 sentinel cases at n = 4e6). non-trivial = the law is not a point mass; distinct by (law, parameters, alea seed). Bulk requests at and around chunk boundaries: one parameter point per regime label of every 1-D law and MVN d = 1..3, sizes n = k*2^j - 1, k*2^j, k*2^j + 1 for 2^j = 256..131072 (k in 1..5 up to 2^13, 1..3 up to 2^16, 1..2 at 2^17; thorough: k up to 8 at 2^17) and round decimal sizes 1e5..3e5 (thorough: up to 2e6), each through sample_n(n) and sample_matrix(r, c) with up to 3 factorisations r*c = n (2 from 2^15 draws on, where the sizes next to a boundary use the vector form only; MVN: DistributionND::sample_n): count, shape, support, integrality, no panic (no statistics). Fault injection: every grid point x 8 adversarial alea states (a raw word with an all-ones / all-zero 32-bit half) x word position 0..5 and one in 6..11 x {12 sample() calls, sample_n(12)}: no panic, bounded progress, support, integrality".into();
+    rep.rule = "fixed grid of parameter points covering every sampler branch named in the quantifier (gamma shape <1/3, =1/3, <1, >=1 and beta/chi2/t built on it; Poisson rate <10, 10..100, 125/149, >=150; binomial inversion/BTPE on both sides of n*min(p,1-p)=30 with and without the p<->1-p flip, p in {0,1}, n up to 1e5; equal-bounds uniform/discrete uniform; normal |mu|<=1e3, sigma=0; MVN d=1..4; badly scaled MVN covariances D*R*D with standard deviations 1e-8..1e2, variance ratio >= 1e6, |correlations| up to 0.94, d = 1..6: 8 fixed + 12 (24) random; structured MVN covariances with exact zeros placed by a graph - hub-first, hub-last, banded, block-diagonal, ring/tree/sparse graph under a random labelling, inverse of a chain/tree precision matrix, diagonal + rank one - d = 2..6, 7 fixed + 9 (21) random, n = 2e5 (1e6), each also through all pair projections; MVN at larger dimensions d = 7..40, 63..65, 127..129, 255..257, 300, 320, 511..513 (thorough: more up to 1030, several covariance kinds per dimension) with AR(1) / equicorrelated / diagonal + rank one / random SPD covariances, n = 500..20000 draws: shape, every standardised and every whitened coordinate, 32 random projections, adjacent-pair projections) plus random parameter points inside the same regimes; each case = one law, one alea seed, n draws requested through sample/sample_n/sample_matrix in turn (quick 2e5, thorough 4e6; the grid is run with 2 (quick) / 3 (thorough) alea seeds per point plus 32 / 96 random points; quick adds 24 sentinel cases at n = 4e6). non-trivial = the law is not a point mass; distinct by (law, parameters, alea seed). Bulk requests at and around chunk boundaries: one parameter point per regime label of every 1-D law and MVN d = 1..3, sizes n = k*2^j - 1, k*2^j, k*2^j + 1 for 2^j = 256..131072 (k in 1..5 up to 2^13, 1..3 up to 2^16, 1..2 at 2^17; thorough: k up to 8 at 2^17) and round decimal sizes 1e5..3e5 (thorough: up to 2e6), each through sample_n(n) and sample_matrix(r, c) with up to 3 factorisations r*c = n (2 from 2^15 draws on, where the sizes next to a boundary use the vector form only; MVN: DistributionND::sample_n): count, shape, support, integrality, no panic (no statistics). Fault injection: every grid point x 8 adversarial alea states (a raw word with an all-ones / all-zero 32-bit half) x word position 0..5 and one in 6..11 x {12 sample() calls, sample_n(12)}: no panic, bounded progress, support, integrality".into();
     rep.assume("parameters are finite and accepted by the constructor's documented domain (no NaN/inf parameters)");
     rep.assume("bulk shapes have positive dimensions for the matrix forms (Matrix cannot represent 0 rows: C15); sample_n(0) is checked for the vector form");
     rep.assume("'terminates' is restated as bounded progress: no single draw ticks any rejection-loop site more than 1e6 times (DESIGN §0)");
-    rep.assume("discrete-uniform bounds within ±1e9, binomial n <= 1e5, Poisson rate <= 3e3, MVN dimension <= 4 with cond(Σ) < 1e6, except the badly scaled family: dimension <= 6, the correlation matrix R has cond < 1e4 while cond(Σ) reaches 1e20 through the diagonal scaling alone");
+    rep.assume("discrete-uniform bounds within ±1e9, binomial n <= 1e5, Poisson rate <= 3e3, MVN dimension <= 4 with cond(Σ) < 1e6, except the badly scaled family: dimension <= 6, the correlation matrix R has cond < 1e4 while cond(Σ) reaches 1e20 through the diagonal scaling alone, and the larger-dimension family (mvn:highdim:*): d = 7..40 and 63..513 (thorough: up to 1030), AR(1) / equicorrelated / diagonal + rank one / random SPD (d <= 40) correlation structure with per-coordinate scales 0.1..10, n = clamp(min(5e5/d, 1.5e8/d²), 500, 20000) draws judged against the DKW band of that n");
     rep.assume("fault injection reaches raw words with an extreme 32-bit half (low half = what u32() returns, high half = the leading bits of f64()); a word whose top 53 bits are all zero (f64() == 0, probability 2^-53) is not injected");
     rep.assume("supports are taken closed (a boundary value produced by rounding is accepted)");
     if cfg.miri() {
@@ -2051,6 +2423,59 @@ pub fn run(cfg: &Cfg, rep: &mut Report) {
             }
             rep.require("mvn:structured:exact-zero", 4);
             rep.require("mvn:structured:zero-with-fill-in", 2);
+        }
+    }
+    // larger dimensions (the quantifier does not bound d) and dimensions next to block edges: few
+    // draws per case (the cost of a draw is d²), DKW band for that n
+    #[cfg(not(miri))]
+    if !cfg.miri() {
+        // (dimension, covariance kind)
+        let mut hd: Vec<(usize, usize)> = Vec::new();
+        let rot = cfg.seed as usize;
+        if cfg.lite {
+            hd.extend([(9, 3), (65, 0), (257, 1)]);
+        } else {
+            let mut big: Vec<usize> = vec![63, 64, 65, 127, 128, 129, 255, 256, 257, 300, 320, 511, 512, 513];
+            if cfg.thorough() {
+                big.extend([100, 191, 192, 193, 383, 384, 385, 447, 448, 449, 575, 576, 577, 640, 700, 767, 768, 769, 1000, 1023, 1024, 1025, 1030]);
+            }
+            for (i, &d) in big.iter().enumerate() {
+                if cfg.thorough() && d <= 600 {
+                    for kind in 0..3 {
+                        hd.push((d, kind));
+                    }
+                } else {
+                    hd.push((d, (i + rot) % 3));
+                }
+            }
+            for d in 7..=40usize {
+                hd.push((d, (d + rot) % 4));
+                if cfg.thorough() {
+                    hd.push((d, (d + rot + 2) % 4));
+                }
+            }
+            // static striding over the workers: most expensive first
+            hd.sort_by(|a, b| b.0.cmp(&a.0).then(a.1.cmp(&b.1)));
+        }
+        rep.note("cases.mvn_highdim", json!(hd.len()));
+        par_cases(cfg, rep, 5, hd.len(), |i, rng, rep| {
+            let seed = rng.u64() | 1;
+            let (d, kind) = hd[i];
+            // the library's draw costs ~5 ns·d², the DKW tests ~100 ns·n·(2d + 160): both kept well
+            // under a second per case
+            let n = if cfg.lite { 200 } else { (500_000 / d).min(150_000_000 / (d * d)).clamp(500, 20_000) };
+            run_mvn_highdim(cfg, rep, d, kind, n, seed, rng)
+        });
+        if !cfg.lite {
+            for r in ["mvn:highdim:d=7..40", "mvn:highdim:d=41..128", "mvn:highdim:d=129..512", "mvn:highdim:d>512"] {
+                rep.require(r, 1);
+            }
+            for r in ["mvn:highdim:d%64=0", "mvn:highdim:d%64=1", "mvn:highdim:d%64=63", "mvn:highdim:d%64=other"] {
+                rep.require(r, 3);
+            }
+            for k in HIGHDIM_KINDS {
+                rep.require(&format!("mvn:highdim:cov={}", k), 2);
+            }
         }
     }
     // fault injection on the RNG stream: every parameter point of the grid (and the badly scaled
